@@ -7,7 +7,7 @@ from gvmon.models import C04 as MC
 GFF_TYPES = ["gene", "mRNA", "exon", "CDS", "ncRNA", "region"]
 GTF_TYPES = ["exon", "CDS", "transcript", "gene", "start_codon", "exon"]
 FORMS = ["none", "str", "column", "list", "list+column", "dict-str", "dict-list", "callable:always_none",
-         "callable:name_attr", "callable:autoincrement_seqid", "callable:autoincrement_const", "callable:composite",
+         "callable:name_attr", "callable:autoincrement_seqid", "callable:autoincrement_const", "callable:autoincrement_seqid_strand", "callable:composite",
          "callable:mixed"]
 NS = [1, 2, 3, 4, 5, 6, 8, 12, 20]
 # values that make a column unique per line when a ':column:' spec keys on it
@@ -150,7 +150,7 @@ def columns_keyed(spec):
         ks = []
         for e in spec["v"].values():
             ks += [e] if isinstance(e, str) else list(e)
-    elif spec["form"] == "callable" and spec["v"] in ("autoincrement_seqid",):
+    elif spec["form"] == "callable" and spec["v"] in ("autoincrement_seqid", "autoincrement_seqid_strand"):
         return out
     else:
         ks = []
